@@ -473,7 +473,8 @@ def binop(I, st, op, a, b, inplace=False):
             return
         if ea is not None and eb is not None and ea.kind == "set" and eb.kind == "set":
             r = models.set_binop(I, st, op, ea, eb)
-            if inplace:  # s |= t, s &= t, s -= t, s ^= t update the set object itself (every reference sees it)
+            if inplace and not ea.frozen:  # s |= t, s &= t, s -= t, s ^= t update the set object itself (every reference
+                # sees it); a frozenset has no in-place operators: `fs |= t` is fs = fs | t (a new object)
                 ea.items[:] = list(st.get(r).items)
                 yield st, a
                 return
